@@ -116,39 +116,67 @@ def l2(ctx, rep):
     if not calls:
         rep.bad('L2.guards', w, w.node.name, 'the wrapped function is never called', construct='function(self, X, ...)')
         return
-    need = {'empty': lambda t: any(isinstance(x, ast.Call) and call_name(x) == 'len' for x in ast.walk(t)) or any(
-                isinstance(x, ast.Attribute) and x.attr in ('empty', 'size') for x in ast.walk(t)),
-            'dtype': lambda t: any(isinstance(x, ast.Attribute) and x.attr in ('dtype', 'dtypes') for x in ast.walk(t)),
-            'nan': lambda t: any(isinstance(x, ast.Call) and call_name(x) in ('isnan', 'isnull', 'isna') for x in ast.walk(t))}
-    weak_seen = set()
+    from ..boolcond import Conds, atoms_of, callee_exits, f_and, satisfiable, show, substitute
+    from ..boolcond import f_not, f_or
+
+    def bad_input(kind, keys):
+        """Formula over the code's own atoms that describes 'the input is bad' for one kind; (formula, n atoms) or None."""
+        if kind == 'empty':
+            fs = []
+            for k in keys:
+                if k.startswith('truth[') and ('len(' in k or '.shape[0]' in k or '.size' in k) and 'isnan' not in k:
+                    fs.append(f_not(('atom', k)))
+                elif k.startswith('truth[') and k.endswith('.empty]'):
+                    fs.append(('atom', k))
+            return (f_or(*fs), len(fs)) if fs else None
+        if kind == 'dtype':
+            good = [('atom', k) for k in keys if k.startswith('truth[') and ('issubdtype' in k or 'is_numeric_dtype' in k)]
+            good += [('atom', k) for k in keys if k.startswith('in[') and 'dtype.kind' in k]
+            return (f_and(*[f_not(g) for g in good]), len(good)) if good else None
+        if kind == 'nan':
+            fs = [('atom', k) for k in keys if ('isnan' in k or 'isnull' in k or 'isna(' in k) and (k.startswith('any[') or k.startswith('truth['))]
+            return (f_or(*fs), len(fs)) if fs else None
+        return None
+
     for c in calls:
-        st_c = stmt_of(c)
-        paths = [p for p in enum_paths(w.body()) if p.end is st_c or st_c in p.stmts]
-        for kind, pred in need.items():
-            ok = bool(paths)
-            for p in paths:
-                # on this path a test of the kind was evaluated, its raising branch was not taken
-                hit = False
-                for test, pol in p.conds:
-                    if isinstance(test, ast.expr) and pred(test):
-                        iff = test._parent
-                        other = iff.orelse if pol else iff.body
-                        if isinstance(iff, ast.If) and raises(other, ('ValueError',)):
-                            hit = True
-                            weak = _weakened(test, pred)
-                            if weak is not None and (kind, id(test)) not in weak_seen:
-                                weak_seen.add((kind, id(test)))
-                                rep.bad('L2.guards', w, test, f'the {kind} guard only fires when `{short(weak, 50)}` also holds: '
-                                        'inputs for which that extra condition is false skip the check', construct=f'{kind} guard condition')
-                ok = ok and hit
-            rep.check('L2.guards', w, c, ok, f'{kind} guard raising ValueError dominates the wrapped call',
-                      f'the wrapped fit can be reached without the {kind} check', construct=f'{kind} guard')
-        # nothing written to self before the call
+        cd = Conds(prog, w)
+        hook = lambda c2, call2: callee_exits(ctx, c2, call2)
+        reach = cd.reach(c, callee_hook=hook)
+        raises = [(rs, rc) for rs, rc in cd._raises if _is_value_error(rs)]
+        if reach is None:
+            rep.undecided('L2.guards', w, c, 'reach condition of the wrapped call not derivable', construct='wrapped call')
+            continue
+        keys = set(atoms_of(reach))
+        for kind in ('empty', 'dtype', 'nan'):
+            spec = bad_input(kind, keys)
+            if spec is None:
+                rep.bad('L2.guards', w, c, f'the wrapped fit is reached without any {kind} test: such input is accepted (or fails late, with the model half-written)',
+                        construct=f'{kind} guard')
+                continue
+            bad, _n = spec
+            sat = satisfiable(f_and(reach, bad))
+            if sat is None:
+                rep.undecided('L2.guards', w, c, f'{kind} guard: too many conditions to enumerate', construct=f'{kind} guard')
+            elif not sat:
+                # and a ValueError is what stops it
+                stops = [rs for rs, rc in raises if satisfiable(f_and(rc, bad))]
+                rep.check('L2.guards', w, c, bool(stops), f'the wrapped fit is unreachable when the {kind} check fails (ValueError)',
+                          f'{kind}-bad input is stopped, but not by a ValueError', construct=f'{kind} guard')
+            else:
+                rep.bad('L2.guards', w, c, f'the wrapped fit can be reached with {kind}-bad input (`{show(bad)[:100]}`): reach condition '
+                        f'`{show(reach)[:200]}`', construct=f'{kind} guard')
         sp = w.params[0] if w.params else 'self'
         early = [n for n in walk_no_nested(w.node) if isinstance(n, ast.Attribute) and isinstance(n.ctx, ast.Store)
                  and isinstance(n.value, ast.Name) and n.value.id == sp]
         rep.check('L2.guards', w, w.node.name, not early, 'the wrapper writes nothing to self',
                   'the wrapper writes to the model before validation', construct='no self writes')
+
+
+def _is_value_error(rs):
+    if isinstance(rs, ast.Raise) and rs.exc is not None:
+        e = rs.exc.func if isinstance(rs.exc, ast.Call) else rs.exc
+        return isinstance(e, ast.Name) and e.id == 'ValueError'
+    return False
 
 
 def _weakened(test, pred):
@@ -362,8 +390,16 @@ def l6(ctx, rep, rule='L6.clone'):
     inner = [f for f in prog.functions.values() if f.outer is sa]
     if inner:
         w = inner[0]
-        stores = {t.attr for n_ in walk_no_nested(w.node) if isinstance(n_, ast.Assign) for t in n_.targets
-                  if isinstance(t, ast.Attribute)}
+        stores = set()
+        for n_ in walk_no_nested(w.node):
+            if isinstance(n_, ast.Assign):
+                for t in n_.targets:
+                    for e in (t.elts if isinstance(t, (ast.Tuple, ast.List)) else [t]):
+                        if isinstance(e, ast.Attribute):
+                            stores.add(e.attr)
+            if isinstance(n_, ast.Call) and isinstance(n_.func, ast.Name) and n_.func.id == 'setattr' and len(n_.args) >= 2 \
+                    and isinstance(n_.args[1], ast.Constant):
+                stores.add(n_.args[1].value)
         rep.check(rule, w, w.node.name, {'__args__', '__kwargs__'} <= stores,
                   'store_args sets __args__ and __kwargs__', 'store_args no longer records both argument sets',
                   construct='store_args wrapper')
